@@ -262,7 +262,10 @@ func (opts *ParseRealtimeOptions) timezoneOrUTC() *time.Location {
 
 func ParseRealtime(content []byte, opts *ParseRealtimeOptions) (*Realtime, error) {
 	if opts.Extension == nil {
-		opts.Extension = extensions.NoExtension()
+		// Work on a copy so that the caller's options are not modified.
+		optsCopy := *opts
+		optsCopy.Extension = extensions.NoExtension()
+		opts = &optsCopy
 	}
 	feedMessage := &gtfsrt.FeedMessage{}
 	if err := proto.Unmarshal(content, feedMessage); err != nil {
